@@ -71,7 +71,7 @@ func handleDigestAuthFunc(username, password string) ResponseMiddleware {
 					return err
 				}
 				req.Body = body
-				req.GetBody = r.GetBody
+				req.GetBody = r.httpGetBody()
 			}
 		}
 		req.Header.Set(header.Authorization, auth)
